@@ -67,6 +67,7 @@ type World struct {
 	Violations []Violation
 	Probes     map[string]int
 	States     map[uint64]struct{}
+	Grid       map[uint64]struct{} // cells of a bounded grid the property quantifies over (class in the top byte)
 	// Providers contribute property-specific enabled actions.
 	Providers []func(now time.Duration) []Action
 	// OnQuiescent runs at every quiescent point before actions are listed.
@@ -92,7 +93,7 @@ type World struct {
 // NewWorld must be called inside the synctest bubble.
 func NewWorld(t *testing.T, seed uint64, trace []int, stalls []Stall, controlled bool) *World {
 	w := &World{T: t, Ch: NewChooser(seed, trace), Log: NewEventLog(), Controlled: controlled,
-		start: time.Now(), kick: make(chan struct{}, 1), Probes: map[string]int{}, States: map[uint64]struct{}{}}
+		start: time.Now(), kick: make(chan struct{}, 1), Probes: map[string]int{}, States: map[uint64]struct{}{}, Grid: map[uint64]struct{}{}}
 	w.driverGid = Gid()
 	w.Sched = newSched(w, stalls)
 	w.Net = newNet(w)
@@ -178,6 +179,13 @@ func (w *World) Probe(name string) { w.mu.Lock(); w.Probes[name]++; w.mu.Unlock(
 
 // Visit records an abstract state.
 func (w *World) Visit(h uint64) { w.mu.Lock(); w.States[h] = struct{}{}; w.mu.Unlock() }
+
+// VisitGrid records a cell of a bounded grid; class (1..255) names the sub-grid.
+func (w *World) VisitGrid(class uint8, h uint64) {
+	w.mu.Lock()
+	w.Grid[h&^(0xff<<56)|uint64(class)<<56] = struct{}{}
+	w.mu.Unlock()
+}
 
 func (w *World) Violate(oracle, class, detail string) {
 	w.mu.Lock()
